@@ -64,12 +64,36 @@ pub(crate) enum Mark {
 #[derive(Clone, Copy)]
 pub struct NodeHandle(pub(crate) NodeId, pub(crate) &'static Root);
 
+/// Marks a teardown (`NodeHandle::dispose` / `NodeHandle::dispose_children`) in progress. When the
+/// outermost one ends, the nodes it removed are dropped, in the order in which they were removed.
+struct Teardown(&'static Root);
+
+impl Teardown {
+    fn enter(root: &'static Root) -> Self {
+        root.dispose_depth.set(root.dispose_depth.get() + 1);
+        Self(root)
+    }
+}
+
+impl Drop for Teardown {
+    fn drop(&mut self) {
+        let depth = self.0.dispose_depth.get() - 1;
+        self.0.dispose_depth.set(depth);
+        if depth == 0 {
+            // A destructor may tear down further nodes: those are dropped by the teardown it starts.
+            let removed = std::mem::take(&mut *self.0.disposed_nodes.borrow_mut());
+            drop(removed);
+        }
+    }
+}
+
 impl NodeHandle {
     /// Disposes the node that is being referenced by this handle. If the node has already been
     /// disposed, this does nothing.
     ///
     /// Automatically calls [`NodeHandle::dispose_children`].
     pub fn dispose(self) {
+        let _teardown = Teardown::enter(self.1);
         // Unsubscribe the node first: it is going away and must not be re-run by one of its own
         // cleanups (one that writes a signal the node depends on). Whatever such a run created or
         // registered would never be cleaned up.
@@ -109,10 +133,11 @@ impl NodeHandle {
                 }
             }
             // Drop the value, the callback and the context values of the node only once the borrow
-            // has ended: their destructors may use the reactive system (e.g. a suspense task guard
-            // stored in a signal releases its counter).
+            // has ended and the outermost teardown is over (see `Teardown`): their destructors may
+            // use the reactive system (e.g. a suspense task guard stored in a signal releases its
+            // counter).
             drop(nodes);
-            drop(this);
+            self.1.disposed_nodes.borrow_mut().push(this);
         }
     }
 
@@ -124,6 +149,7 @@ impl NodeHandle {
         if self.1.nodes.borrow().get(self.0).is_none() {
             return;
         }
+        let _teardown = Teardown::enter(self.1);
         let cleanup = std::mem::take(&mut self.1.nodes.borrow_mut()[self.0].cleanups);
         let children = std::mem::take(&mut self.1.nodes.borrow_mut()[self.0].children);
 
